@@ -21,7 +21,7 @@ pub struct C12;
 
 // ------------------------------------------------------------------------------------------ (a)
 
-const WRONG_KIND: [&str; 8] = ["Variant was not a string", "unexpected arg", "Expected array", "Expected user defined type", "was not", "should have been", "Cannot print user defined type", "linter should have caught"];
+const WRONG_KIND: [&str; 9] = ["Cannot cast", "Variant was not a string", "unexpected arg", "Expected array", "Expected user defined type", "was not", "should have been", "Cannot print user defined type", "linter should have caught"];
 
 fn soundness_case(sh: &mut Shard, tape: &[u32]) -> Result<(), Violation> {
     let mut t = Tape::new(tape);
@@ -667,7 +667,16 @@ fn placement_matrix(sh: &mut Shard) {
                 // not a fault for this checker: then it must at least be sound
                 if k == refk {
                     let inputs = json!({"kind": "soundness", "program": rc.text});
-                    if let Ok(out) = impl_run::run_src(&rc.text, &RunOpts::budget(100_000)) {
+                    let ran = impl_run::run_src(&rc.text, &RunOpts::budget(100_000));
+                    if let Err(FrontErr::Panic { stage: "codegen", info }) = &ran {
+                        if WRONG_KIND.iter().any(|w| info.msg.contains(w)) {
+                            let r = Err(Violation::new(format!("c12-wrong-kind:{}", info.sig()), "an accepted ill-typed statement could not be translated (operand of the wrong kind)", inputs.clone()).exp_obs("rejected by the checker", json!({"panic": info.msg})));
+                            if !sh.report(r) {
+                                return;
+                            }
+                        }
+                    }
+                    if let Ok(out) = ran {
                         let r = match &out.end {
                             End::Err { code: Some(13), pos, .. } => Err(Violation::new(format!("c12-type-mismatch-at-runtime:{}", fault), "an accepted ill-typed expression raised Type mismatch (13) at run time", inputs).exp_obs("rejected by the checker, or no Type mismatch", json!(pos))),
                             End::Panic(p) if WRONG_KIND.iter().any(|w| p.msg.contains(w)) => Err(Violation::new(format!("c12-wrong-kind:{}", p.sig()), "an accepted program applied an operator or built-in to an operand of the wrong kind", inputs).exp_obs("no wrong-kind failure", json!({"panic": p.msg}))),
